@@ -9,11 +9,12 @@ THEOREMS = [
     "C03.silent_pass_unchanged",
     "C03.max_cycles_zero",
     "C03.error_returns",
+    "C03.wrappers_within_bound",
 ]
 N = {"quick": 6000, "thorough": 80000}
 EXHAUSTIVE = {"quick": False, "thorough": False}
 # the model of execute is C02's; its files are audited here too
-LEAN_FILES = ["RreModel/C02/Model.lean", "RreModel/C02/Spec.lean", "RreModel/C02/Lemmas.lean",
+LEAN_FILES = ["RreModel/C02/Model.lean", "RreModel/C02/Api.lean", "RreModel/C02/ApiLemmas.lean", "RreModel/C02/Spec.lean", "RreModel/C02/Lemmas.lean",
               "RreModel/C02/Wire.lean", "RreModel/C02/Oracle.lean"]
 EXEC_TIMEOUT = 900
 RULE = ("cases = corpus + every max_cycles in 0..64 on a counter, a toggle and a ping-pong pair (both execute twins) + N random "
@@ -35,7 +36,18 @@ RULE = ("cases = corpus + every max_cycles in 0..64 on a counter, a toggle and a
         "+ N/12 rule sets whose firing rules have workflow bookkeeping actions only (W.k: ScheduleRule / CompleteWorkflow / "
         "SetWorkflowData, 1..3 per rule; always-true or slowly quiescing conditions, mostly without no-loop; alone, next to rules that fire "
         "in the first passes only, mixed with Set actions; such a rule carries no Custom marker — its firing marker is a trailing "
-        "ScheduleRule with delay 0 read back through get_ready_tasks and merged by instant), W.k actions also in the random sets. Every case "
+        "ScheduleRule with delay 0 read back through get_ready_tasks and merged by instant), W.k actions also in the random sets "
+        "+ every max_cycles in 0..64 with set_debug_mode in front of / between calls of the plain execute wrapper and the twins "
+        "+ N/12 configuration histories (engine built with a non-default max_cycles 0..64 on rule sets that do not quiesce within it, or only "
+        "in a later call; between the executes set_debug_mode(true/false) next to focus calls on MAIN, pop, clear, reset_no_loop_tracking, "
+        "fact edits, knowledge-base edits through knowledge_base_mut(), knowledge_base().clear() followed by re-adding the same / a fresh name) "
+        "+ N/10 re-activation histories (lock-on-active rules with conditions that stay true in MAIN or a named group next to one-shot, no-loop "
+        "and counter rules; activate - execute - RE-activate in every public way: set_agenda_focus on the group that already has the focus, "
+        "execute_workflow_step, activate_agenda_group, focus another group and come back, pop/clear + focus, twice in a row, or not at all / "
+        "set_debug_mode only as the control) "
+        "+ N/12 workflow histories (execute_workflow over 1..4 groups and execute_workflow_step mixed with set/pop/clear focus, "
+        "activate_agenda_group and the three execute entry points, rules spread over MAIN and 2..3 groups incl. never-quiescing ones). "
+        "The three execute entry points (execute_at_time, execute_with_callback, plain execute) are drawn in every history family. Every case "
         "runs in a thread with a 5 s deadline (a call that does not return is observed as `hang`). Observations: GruleExecutionResult "
         "{cycle_count, rules_evaluated, rules_fired}, the callback/marker firing sequence, facts and active group after each call; diffed "
         "against the Lean model, and the clauses C03.countersOk (cycle_count<=max_cycles, fired = number of firings observed, "
@@ -47,10 +59,12 @@ TRUSTED = [
     "Lean 4.33 kernel; axioms of every property theorem within {propext, Classical.choice, Quot.sound} (audited each run)",
     "hand-written model RreModel/C02/Model.lean (exec/cycles/passLoop) tied to src/engine/engine.rs execute_at_time / execute_with_callback by the correspondence check only",
     "harness/src/bin/c03.rs + c02.rs (executor), RreModel/C02/{Wire,Oracle}.lean, Driver/C03.lean glue, check.py diff",
+    "wrapper calls (execute, set_debug_mode, knowledge_base_mut, clear, execute_workflow_step, execute_workflow): hand-written model RreModel/C02/Api.lean tied to engine.rs by the correspondence check; after an execute_workflow call the oracle stops (per-step results are not observable) and only the model diff covers the rest of that history",
     "termination of the real call also needs every action and condition evaluation to return: typed core only (integer Set / field+k / ActivateAgendaGroup), no custom functions",
 ]
 ASSUMPTIONS = [
     "timeout = None (the wall-clock timeout is outside the model)",
+    "scheduled tasks (execute_scheduled_tasks, the task part of process_workflow_actions) are outside: cases with workflow calls never have a ready task",
     "max_cycles is the fuel of the model's recursion: the definition is accepted by Lean only because the bound exists",
     "fixpoint oracle: eligibility at the end is computed from reference bookkeeping derived from the observed firing log (no-loop names since reset, lock-on-active firings since the last activation)",
 ]
